@@ -45,7 +45,54 @@ def load_repo():
     # forwarding shim only matters if the code asks for a numeric dtype (it then gets object storage instead of an int() conversion)
     from . import npshim
     pg.np = npshim.Shim()
+    snapshot_process_state(n)
+    S.PATH_RESET = reset_process_state
     return n
+
+
+_STATE = []      # (container, import-time shallow copy) for every module-level / class-level dict, list, set of the repository's modules
+
+
+def _containers(n):
+    seen = set()
+    for mod in (n.puan, n.pg, n.pnd, n.cc, n.misc):
+        for name, obj in list(vars(mod).items()):
+            if name.startswith("__"):
+                continue
+            if isinstance(obj, (dict, list, set)) and id(obj) not in seen:
+                seen.add(id(obj))
+                yield obj
+            if isinstance(obj, type) and getattr(obj, "__module__", "").startswith("puan"):
+                for an, attr in list(vars(obj).items()):
+                    if an.startswith("__"):
+                        continue
+                    if isinstance(attr, (dict, list, set)) and id(attr) not in seen:
+                        seen.add(id(attr))
+                        yield attr
+
+
+def snapshot_process_state(n):
+    """M12: remember the import-time content of every process-wide mutable container of the repository's modules (module globals and
+    class attributes of type dict/list/set; a change may introduce new ones, e.g. a memo table)"""
+    del _STATE[:]
+    for c in _containers(n):
+        _STATE.append((c, type(c)(c)))
+
+
+def reset_process_state():
+    """called by core.explore before every path: SX re-executes the harness once per path and every path stands for one run that
+    starts in a fresh process, so process-wide state written by an earlier path (memo tables, functools caches) must not leak into
+    the next one - it could hold proxies of another path and make the re-execution diverge from its recorded prefix"""
+    for c, c0 in _STATE:
+        try:
+            if isinstance(c, list):
+                c[:] = c0
+            else:
+                c.clear()
+                c.update(c0)
+        except Exception:   # noqa
+            pass
+    clear_all_caches()
 
 
 def src_hash(obj):
